@@ -89,8 +89,17 @@ impl AtomicUsize {
     where
         F: FnMut(usize) -> Option<usize>,
     {
-        yield_point("AtomicUsize::fetch_update");
-        self.0.fetch_update(set_order, fetch_order, f)
+        // a compare-exchange loop, like the real one: the closure runs again when another thread got in between
+        let mut f = f;
+        loop {
+            yield_point("AtomicUsize::fetch_update/load");
+            let cur = self.0.load(fetch_order);
+            let Some(new) = f(cur) else { return Err(cur) };
+            yield_point("AtomicUsize::fetch_update/swap");
+            if self.0.compare_exchange(cur, new, set_order, fetch_order).is_ok() {
+                return Ok(cur);
+            }
+        }
     }
 }
 
@@ -116,8 +125,19 @@ impl<T> ArcSwap<T> {
         F: FnMut(&Arc<T>) -> R,
         R: Into<Arc<T>>,
     {
-        yield_point("ArcSwap::rcu");
-        self.0.rcu(f)
+        // read-copy-update as the scheduler sees it: a load, the caller's closure, and a compare-and-swap
+        // that makes the closure run again when another thread published in between
+        let mut f = f;
+        loop {
+            yield_point("ArcSwap::rcu/load");
+            let cur = self.0.load_full();
+            let new: Arc<T> = f(&cur).into();
+            yield_point("ArcSwap::rcu/swap");
+            let prev = self.0.compare_and_swap(&cur, new);
+            if Arc::ptr_eq(&prev, &cur) {
+                return cur;
+            }
+        }
     }
 }
 
